@@ -33,4 +33,15 @@ CASES = [
          old="        return (self.len_rescaled / 2.0 / np.sqrt(np.pi)) ** self.dim * np.exp(\n            -((k * self.len_rescaled / 2.0) ** 2)\n        )",
          new="        fac = (0.5 * self.len_rescaled / np.sqrt(np.pi)) ** self.dim\n        arg = 0.25 * (self.len_rescaled * k) ** 2\n        return fac * np.exp(-arg)"),
     dict(name="twin-radfac-sphere-formula", kind="twin", file=T, old="        fac = 4 * np.pi * r**2", new="        fac = 2 * np.pi * r * 2 * r"),
+    # the state before the repair 4156808: the 2D ppf of the Exponential model inverts 1 - cdf
+    dict(name="revert-exponential-ppf-2d", file="covmodel/models.py", expect="R04.9", edits=[
+        dict(file="covmodel/models.py", old="            v = 1.0 - u\n", new="            v = u\n")]),
+    dict(name="gaussian-cdf-3d-wrong-factor", file="covmodel/models.py", expect="R04.9", old="            ) - r * self.len_rescaled / np.sqrt(np.pi) * np.exp(\n", new="            ) - r * self.len_rescaled / np.pi * np.exp(\n"),
+    dict(name="exponential-ppf-1d-missing-half", file="covmodel/models.py", expect="R04.9", old="            return np.tan(np.pi / 2 * u) / self.len_rescaled\n", new="            return np.tan(np.pi * u) / self.len_rescaled\n"),
+    dict(name="twin-exponential-cdf-1d-reordered", kind="twin", file="covmodel/models.py", old="            return np.arctan(r * self.len_rescaled) * 2.0 / np.pi\n", new="            return 2.0 / np.pi * np.arctan(self.len_rescaled * r)\n"),
+    # the state of 4156808 (first version of repair #24): the limit at u = 1 guarded by np.isclose(u, 1), which has a relative band
+    dict(name="ppf-limit-relative-band", file="covmodel/models.py", expect="R04.10", edits=[
+        dict(file="covmodel/models.py", old="            v = 1.0 - u\n", new=""),
+        dict(file="covmodel/models.py", old="                v**2,\n                out=np.full_like(v, np.inf),\n                where=np.logical_not(np.isclose(v, 0)),\n",
+             new="                (1 - u) ** 2,\n                out=np.full_like(u, np.inf),\n                where=np.logical_not(np.isclose(u, 1)),\n")]),
 ]
